@@ -157,3 +157,12 @@ ENGINES[-1 if ENGINES[-1]["name"]=="E6-ref" else [i for i,e in enumerate(ENGINES
 claim("C26", "E6-ref", "exploration", "per-account conservation monitor on the real x/nodes keeper (in-memory store, real auth keeper): every balance and the supply read before/after RewardForRelaysPerChain, BeginBlocker->blockReward and SplitNodeRewards, compared with big.Int re-statements of the split rules",
       "9 campaigns (feature sets: all / no delegators / no stake weighting / legacy / heights 30024..74621; three block-reward sets; bare split) over relay counts to 1e12, stakes around bin edges, per-chain multipliers, DAO/proposer allocations incl. 0/0, 100/0, 0/100, delegator maps of 0..100 entries with share sums to exactly 100 and addresses colliding with output/operator/fee collector: minted == computed reward == sum of credits, fee part = floor, operator compensation, per-delegator floor, output remainder, nobody else credited; block reward: parts add up to the fees; one defect found and fixed (division by zero at 0/0); held-on-observed",
       E6NOTE + "; the chain-level path (claims -> proofs -> mint) is monitored by C32 at heights where the history-replay branch of the reward code is active", "DESIGN.md §4 C26")
+ENGINES.append({"name": "E5-relays", "path": "internal/chain/relayops.go + internal/checks/c34_c35_relays.go", "serves_properties": ["C34", "C35"],
+  "kind_free_text": "relay harness: PocketCoreApp.HandleRelay on a full node process against a loopback hosted-chain stub; sequential single-defect relays, concurrent bursts with sealer goroutine, evidence read-out, race-detector build"})
+RLNOTE = E3NOTE + "; hosted chain = loopback HTTP stub; the module's automatic claim sender is kept out by the Tendermint stub (it only tells the relay handler the node is caught up); interleavings are whatever the Go scheduler produces with 2..16 goroutines on this machine"
+claim("C34", "E5-relays", "exploration", "concurrency monitor: bursts of identical and distinct relays through HandleRelay from 2..16 goroutines (40% racing with an emulated claim sender sealing the evidence), evidence store read out afterwards; same workload in a race-detector build (GORACE log, reports keyed by innermost pocket-core frames)",
+      "~250 bursts / ~10000 relays per quick run: no proof stored twice, counter == length <= the application's allowance, every call that returned a signed response before the sealer began is in the evidence, served only if in the reference session; race reports touching the evidence store are violations, others are listed; on the tree before fix b626c2d every run reported lost and duplicated proofs and AddProof/IsUniqueProof/ToProto races; held-on-observed after it",
+      RLNOTE, "DESIGN.md §4 C34, §11")
+claim("C35", "E5-relays", "exploration", "single-defect mutation monitor on HandleRelay: for every application x chain session a valid relay, 23 classes of relays with exactly one condition violated (re-signed so that nothing else is wrong), duplicates and over-allowance relays; evidence store read before/after each call; independent session-membership reference",
+      "~5000 relays per quick run: a signed response or any change of any evidence object only if nothing was altered, the reference session contains the node, the evidence is below the allowance and does not hold the proof; served relays: response signature verifies, evidence grows by exactly that proof; one defect found and fixed (session heights off the session boundary were served); held-on-observed",
+      RLNOTE, "DESIGN.md §4 C35, §11")
